@@ -29,6 +29,7 @@ SOLVERS = {"ito": ["euler"], "stratonovich": ["euler_heun", "heun", "midpoint", 
 @st.composite
 def _case(draw, tier):
     spec = draw(sdes.generic_specs(noise_types=["diagonal", "scalar", "additive"], dtypes=("float64", "float32")))
+    spec["rowdep"] = draw(st.booleans())      # per-sample conditioning: the diffusion differs between batch members
     method = draw(st.sampled_from(SOLVERS[spec["sde_type"]]))
     levy = draw(st.sampled_from(["davie", "foster"])) if method == "log_ode" else \
         draw(st.sampled_from(["none", "none", "space-time", "foster"]))
@@ -58,7 +59,7 @@ def enumerate_cases(tier):
                         rnd = random.Random(seed * 6007 + idx)
                         spec = {"sde_type": sde_type, "noise_type": nt, "d": 2, "m": 1 if nt == "scalar" else 2,
                                 "batch": 2, "hidden": 3, "seed": rnd.randrange(2 ** 31), "tdep": True, "fscale": 1.0,
-                                "gscale": 0.7, "dtype": "float64"}
+                                "gscale": 0.7, "dtype": "float64", "rowdep": idx % 3 != 0}
                         yield {"spec": spec, "method": method, "levy": levy, "outs": [0.4], "adaptive": adaptive,
                                "time": {"t0": 0.1, "t1": 0.1 + 5 * 0.125, "dt": 0.125, "tdtype": "float64"},
                                "entropy": rnd.randrange(2 ** 31 - 2)}
@@ -91,7 +92,7 @@ def run_case(case):
     steps = (tm["t1"] - tm["t0"]) / tm["dt"]
     labels = [f"{spec['sde_type']}/{spec['noise_type']}/{case['method']}", f"levy={case['levy']}",
               f"dtype={spec['dtype']}", "bit_identical" if torch.equal(a, b) else "differs_in_last_bits",
-              "adaptive" if case.get("adaptive") else "fixed"]
+              "adaptive" if case.get("adaptive") else "fixed"] + (["per_sample_conditioning"] if spec.get("rowdep") else [])
     fail = None
     if not (e <= 1e3 * eps) or not bool(torch.isfinite(a).all()):
         fail = Fail("special_vs_general", f"{spec['noise_type']} declaration and its general embedding disagree with "
